@@ -1,6 +1,6 @@
 CONSTANTS Family = "H2"
   G = 5
-  MaxV = 0
+  MaxV = 1
   Emit = TRUE
   StartRows = {}
 INIT Init
